@@ -134,6 +134,12 @@ func TestVerifC13(t *testing.T) {
 		os.RemoveAll(dir)
 		os.MkdirAll(dir, 0o755)
 		mode := modes[r.Intn(len(modes))]
+		if c%5 == 1 {
+			mode = "drop" // the directed envelope history below gets a fixed share of the cases
+		}
+		if c%10 == 0 || c%10 == 5 {
+			mode = "content" // the big-trace scenarios (see below) get a fixed share of the cases
+		}
 		sampler := &vSampler{mode: mode, drop: map[string]bool{}}
 		var deregister func()
 		if mode != "none" {
@@ -141,10 +147,13 @@ func TestVerifC13(t *testing.T) {
 		}
 		// in a third of the cases memory parts linger (flush timeout 250 ms): a late fragment written right before a
 		// merge is then still in memory, outside the merged parts, while the sampler decides
-		lateFragments := r.Intn(3) == 0 && mode != "content"
-		bigTrace := mode == "content" && r.Intn(2) == 0 // one trace above the 2 MiB block budget, small decision batches
-		if bigTrace {
-			testStageBudgetOverride = 1
+		lateFragments := r.Intn(3) == 0 && mode != "content" && c%5 != 1
+		bigTrace := mode == "content" && (c%10 == 0 || c%10 == 5 || r.Intn(4) == 0) // one trace above the 2 MiB block budget
+		// two layouts of the big trace: five 900 KiB spans over five parts (the output block overflows mid-trace), or
+		// one span that fills a block by itself followed by small spans in the same batch
+		headFull := bigTrace && (c%10 == 5 || (c%10 != 0 && r.Intn(2) == 0))
+		if bigTrace && c%10 != 5 {
+			testStageBudgetOverride = 1 // every trace is decided on its own; otherwise (c%10==5) the whole merge is one decision batch
 		}
 		flushTimeout := time.Duration(0)
 		if lateFragments {
@@ -153,7 +162,7 @@ func TestVerifC13(t *testing.T) {
 		tst, err := newTSTable(fs.NewLocalFileSystem(), dir, common.Position{Database: group}, logger.GetLogger("verif"),
 			timestamp.NewInclusiveTimeRange(time.Unix(-1, 0), time.Unix(1000, 0)),
 			option{flushTimeout: flushTimeout, mergePolicy: newMergePolicy(100000, 1, run.Bytes(0)), protector: protector.Nop{}, decideTimeout: 5 * time.Second,
-				decideTimeoutCircuitBreak: 1000, mergeGraceDefault: time.Millisecond, nativePipelineEnabled: true}, nil)
+				decideTimeoutCircuitBreak: 1000, mergeGraceDefault: 10 * time.Second, nativePipelineEnabled: true}, nil)
 		if err != nil {
 			s.Violation("c13:open", map[string]any{"err": err.Error()})
 			if deregister != nil {
@@ -162,10 +171,15 @@ func TestVerifC13(t *testing.T) {
 			continue
 		}
 		nTraces := 2 + r.Intn(6)
+		traceBase := map[string]int64{} // the second around which all spans of the trace lie
 		var tids []string
 		for i := 0; i < nTraces; i++ {
 			id := fmt.Sprintf("trace-%d-%d", c, i)
 			tids = append(tids, id)
+			traceBase[id] = int64(1 + r.Intn(20)) // traces live at the two ends of the table's time range, so that the
+			if r.Intn(2) == 0 {                   // time ranges of parts differ by far more than the merge grace
+				traceBase[id] = int64(870 + r.Intn(20))
+			}
 			if r.Intn(2) == 0 {
 				sampler.drop[id] = true
 			}
@@ -326,15 +340,31 @@ func TestVerifC13(t *testing.T) {
 					spanSeq++
 					sp := fmt.Sprintf("%s/s%04d", id, spanSeq)
 					ts.traceIDs = append(ts.traceIDs, id)
-					ts.timestamps = append(ts.timestamps, int64(1+r.Intn(900)))
+					ts.timestamps = append(ts.timestamps, (traceBase[id]+int64(r.Intn(5)))*int64(time.Second)) // all spans of a trace lie within 5 s, far inside the merge grace
 					ts.tags = append(ts.tags, []*tagValue{{tag: "t", valueType: pbv1.ValueTypeStr, value: []byte(fmt.Sprint("v", spanSeq%5))}})
 					if big {
-						ts.spans = append(ts.spans, make([]byte, 900<<10))
+						size := 900 << 10
+						if batchNo == 0 && headFull {
+							size = maxUncompressedSpanSize // one span fills a block by itself; the small spans below follow in a block of their own
+						}
+						ts.spans = append(ts.spans, make([]byte, size))
 						ts.spanIDs = append(ts.spanIDs, sp)
 						if acked[id] == nil {
 							acked[id] = map[string]int{}
 						}
 						acked[id][sp] = batchNo
+						if batchNo == 0 && headFull {
+							for x := 0; x < 2; x++ {
+								spanSeq++
+								tail := fmt.Sprintf("%s/s%04d", id, spanSeq)
+								ts.traceIDs = append(ts.traceIDs, id)
+								ts.timestamps = append(ts.timestamps, (traceBase[id]+int64(r.Intn(5)))*int64(time.Second))
+								ts.tags = append(ts.tags, []*tagValue{{tag: "t", valueType: pbv1.ValueTypeStr, value: []byte("v")}})
+								ts.spans = append(ts.spans, []byte("payload-"+tail))
+								ts.spanIDs = append(ts.spanIDs, tail)
+								acked[id][tail] = batchNo
+							}
+						}
 						continue
 					}
 					ts.spans = append(ts.spans, []byte("payload-"+sp))
@@ -361,6 +391,80 @@ func TestVerifC13(t *testing.T) {
 				return false
 			}
 			return true
+		}
+		// A directed history for the dropping sampler: an early merge whose later input spans a wider time range than
+		// the earlier one, then a late fragment of a trace that lives at the top of that range arrives in a fresh
+		// part, and a merge takes the fresh parts only. The earlier fragment sits in the merged part outside.
+		if c%5 == 1 {
+			rounds = 0
+			put := func(items ...[2]any) uint64 { // (trace index, second)
+				ts := &traces{}
+				for _, it := range items {
+					id := tids[it[0].(int)]
+					spanSeq++
+					sp := fmt.Sprintf("%s/s%04d", id, spanSeq)
+					ts.traceIDs = append(ts.traceIDs, id)
+					ts.timestamps = append(ts.timestamps, int64(it[1].(int))*int64(time.Second))
+					ts.tags = append(ts.tags, []*tagValue{{tag: "t", valueType: pbv1.ValueTypeStr, value: []byte("v")}})
+					ts.spans = append(ts.spans, []byte("payload-"+sp))
+					ts.spanIDs = append(ts.spanIDs, sp)
+					if acked[id] == nil {
+						acked[id] = map[string]int{}
+					}
+					acked[id][sp] = batchNo
+				}
+				batchNo++
+				tst.mustAddTraces(ts, nil)
+				waitFlushed(0)
+				ids, _ := fileParts(tst)
+				hist = append(hist, fmt.Sprintf("write(part %d: %v)", ids[len(ids)-1], items))
+				return ids[len(ids)-1]
+			}
+			mergeIDs := func(ids ...uint64) {
+				merged := map[uint64]bool{}
+				mergedIDs := map[uint64]struct{}{}
+				for _, id := range ids {
+					merged[id] = true
+					mergedIDs[id] = struct{}{}
+				}
+				before, whereBefore, _ := scanAll(tst, tids)
+				snp := tst.currentSnapshot()
+				var selected []*partWrapper
+				for _, pw := range snp.parts {
+					if merged[pw.ID()] {
+						pw.incRef()
+						selected = append(selected, pw)
+					}
+				}
+				snp.decRef()
+				closeCh := make(chan struct{})
+				_, mergeErr := tst.mergePartsThenSendIntroduction(snapshotCreatorMerger, selected, mergedIDs, tst.mergeCh, closeCh, mergeTypeFile, mergeLaneFast, nil)
+				close(closeCh)
+				for _, pw := range selected {
+					pw.decRef()
+				}
+				hist = append(hist, fmt.Sprintf("merge(parts %v)", ids))
+				s.Count("c13.merges", 1)
+				if mergeErr != nil {
+					s.Violation("c13:merge-error", d(map[string]any{"err": mergeErr.Error()}))
+					bad = true
+					return
+				}
+				check("after merge", before, merged, whereBefore)
+			}
+			top := 0                                                    // trace 0 lives at the top of the range and the sampler wants to drop it; trace 1 is kept
+			sampler.drop[tids[0]], sampler.drop[tids[1]] = false, false // the sampler's rule changes after the first merge
+			lowA, lowB, hi := 5+r.Intn(10), 1+r.Intn(3), 860+r.Intn(30)
+			p1 := put([2]any{1, lowA}, [2]any{1, lowA + 2}) // narrow: a few seconds around lowA
+			p2 := put([2]any{1, lowB}, [2]any{top, hi})     // wide: below p1's minimum and far above its maximum
+			mergeIDs(p1, p2)                                // the kept trace keeps the merged part alive
+			if !bad {
+				sampler.drop[tids[0]] = true                        // from now on the sampler wants the top trace gone
+				p3 := put([2]any{top, hi + 1}, [2]any{1, lowA + 1}) // the late fragment of the top trace
+				p4 := put([2]any{1, lowA + 3})
+				mergeIDs(p3, p4)
+			}
+			s.Count("c13.directed_envelope_histories", 1)
 		}
 		for round := 0; round < rounds && !bad; round++ {
 			// a few batches: each holds spans of a seeded selection of traces (a trace is spread over batches)
